@@ -132,8 +132,31 @@ def _true_positions(cond):
         try:
             return cond.to_numpy(dtype=bool, na_value=False)
         except (TypeError, ValueError):
-            pass  # not a masked column after all (categorical ...): as before
+            pass  # not a masked column after all (text, categorical ...)
+        missing = numpy.asarray(cond.isna(), dtype=bool)
+        if missing.any():
+            # numpy takes nan for a true value
+            values = numpy.array(cond.to_numpy(dtype=object), dtype=object)
+            values[missing] = False
+            return values.astype(bool)
     return cond
+
+
+def _none_for_missing(res):
+    """
+    None is the missing value of an object array: a nullable branch of where / if_else leaves <NA> entries,
+    which have no truth value and can not be compared.
+    """
+    if (res.dtype == object) and (res.ndim == 1):
+        for i, v in enumerate(res):
+            if (v is not None) and (not isinstance(v, (bool, str))):
+                try:
+                    missing = bool(v != v)  # nan, NaT
+                except TypeError:
+                    missing = True  # <NA> compares to <NA>
+                if missing:
+                    res[i] = None
+    return res
 
 
 def _where_expr(*args):
@@ -144,7 +167,7 @@ def _where_expr(*args):
     cond = args[0]
     a = args[1]
     b = args[2]
-    return numpy.where(_true_positions(cond), a, b)
+    return _none_for_missing(numpy.where(_true_positions(cond), a, b))
 
 
 # base class for Pandas-like API realization
@@ -337,7 +360,7 @@ class PandasModelBase(
         cond = args[0]
         a = args[1]
         b = args[2]
-        res = numpy.where(_true_positions(cond), a, b)
+        res = _none_for_missing(numpy.where(_true_positions(cond), a, b))
         bad_posns = self.bad_column_positions(cond)
         if numpy.any(bad_posns):
             # make room for a missing value whatever the type of the branches
